@@ -212,6 +212,52 @@ OPERANDS = {'0.5': 0.5, '0.01': 0.01, '1.5': 1.5, '-0.25': -0.25, '1/3': 1.0 / 3
             '0.999': 0.999, '3': 3, '2.0': 2.0, '-1': -1}
 OPERANDS_Q = ['0.5', '0.01', '-0.25', '1/3', '0.999', '3']
 
+# -- the formula *object* (fourth search dimension).  A formula handed to add_column / define_variable / remove /
+# values_from_database is an object that may have been used before: evaluated on another table, numbered by hand
+# (Expression.prepare) or by a model (BIOGEME object) built on another table whose columns are laid out differently, be a
+# part of such a model, share its variables with one, belong to a model on this very table, or be the object of an earlier
+# operation of the same history.  Whatever its past, the stored / returned values are the values of the formula on the
+# rows of *this* table.  ('b', name, value, status) is a parameter: the value of the formula is taken at `value`.
+FORMULAS['beta'] = ('+', ('*', ('b', 'b13', 2.0, 0), V('x')), V('c'))          # b*x + c, b = 2 (a utility)
+FORMULAS['betafix'] = ('-', ('*', ('b', 'f13', -0.5, 1), V('c')), V('id'))     # fixed parameter
+PROV_KINDS = ['fresh', 'evaluated-on-another-table', 'prepared-on-another-table', 'model-on-another-table',
+              'simulation-on-another-table', 'part-of-a-model-on-another-table', 'variables-shared-with-a-model-on-another-table',
+              'model-on-this-table']
+PROV_LOCAL = ('fresh', 'model-on-this-table')             # kinds without another table
+PROV_FORMULAS_Q, PROV_FORMULAS_T = ['lin', 'mix', 'beta'], ['lin', 'mix', 'beta', 'obs', 'frac', 'betafix']
+PROV_CONDS_Q, PROV_CONDS_T = ['c_eq_1', 'x_gt'], ['c_eq_1', 'x_gt', 'or', 'c_minus_1']
+# layouts of the other table: every order of the four columns (0 = the order of this table), and two with a further column
+LAYOUTS = [list(p) for p in itertools.permutations(COLS)] + [['e1'] + COLS, ['x', 'e1', 'id', 'r', 'c']]
+assert LAYOUTS[0] == COLS
+
+
+def prov_layouts(tier):
+    if tier == 'thorough':
+        return list(range(len(LAYOUTS)))
+    return [0, LAYOUTS.index(COLS[::-1]), LAYOUTS.index(COLS[1:] + COLS[:1]), LAYOUTS.index(['e1'] + COLS)]
+
+
+def parse_prov(p):
+    kind, _, rest = p.partition('@')
+    layout, _, tag = rest.partition('#')
+    return kind, int(layout or 0), tag
+
+
+def prov_of(op):
+    """The past of the formula object of an operation ('<kind>@<layout>#<tag>'), None if the formula is built afresh."""
+    i = {'add': 3, 'define': 3, 'remove': 2, 'values': 2}.get(op[0])
+    return op[i] if i is not None and len(op) > i else None
+
+
+def prov_class(op):
+    p = prov_of(op)
+    if p is None:
+        return ''
+    kind, layout, _ = parse_prov(p)
+    if kind in PROV_LOCAL or kind == 'reused':
+        return f';formula={kind}'
+    return f';formula={kind};columns={"same-order" if layout == 0 else "other-order"}'
+
 
 def term_of(name):
     """Formula / condition by name; parametrised families are resolved from the name itself:
@@ -252,7 +298,7 @@ def term_of(name):
 def term_columns(t):
     if t[0] == 'v':
         return {t[1]}
-    if t[0] == 'n':
+    if t[0] in ('n', 'b'):
         return set()
     return set().union(*(term_columns(s) for s in t[1:]))
 
@@ -264,6 +310,8 @@ def ev(t, row):
         return float(row[t[1]])
     if k == 'n':
         return float(t[1])
+    if k == 'b':
+        return float(t[2])
     if k == 'log':
         a = ev(t[1], row)
         if a != a or a < 0.0:
@@ -569,20 +617,29 @@ def vectors(low, high, size, distinct):
 
 
 # --------------------------------------------------------------------------- the real side
-def build(t):
-    """Term -> biogeme expression through the public DSL (raw Python numbers stay raw)."""
+def build(t, pool=None):
+    """Term -> biogeme expression through the public DSL (raw Python numbers stay raw).  `pool`: dict name -> Variable
+    object; the variables of the term are taken from (and added to) it instead of being created."""
     from biogeme.expressions import Variable
 
     k = t[0]
     if k == 'v':
-        return Variable(t[1])
+        if pool is None:
+            return Variable(t[1])
+        if t[1] not in pool:
+            pool[t[1]] = Variable(t[1])
+        return pool[t[1]]
     if k == 'n':
         return t[1]
+    if k == 'b':
+        from biogeme.expressions import Beta
+
+        return Beta(t[1], t[2], None, None, t[3])
     if k == 'log':
         from biogeme.expressions import log
 
-        return log(build(t[1]))
-    a, b = build(t[1]), build(t[2])
+        return log(build(t[1], pool))
+    a, b = build(t[1], pool), build(t[2], pool)
     if k == '+':
         return a + b
     if k == '-':
@@ -637,15 +694,77 @@ def make_db(table):
     return bdb.Database('t13', df)
 
 
+def other_db(layout):
+    """Another table: 3 rows, the columns of LAYOUTS[layout], values that occur nowhere in the tables under test."""
+    import pandas as pd
+    import biogeme.database as bdb
+
+    cols = LAYOUTS[layout]
+    base = {'x': 100.5, 'id': 201.0, 'r': 300.0, 'c': 407.0, 'e1': 511.0}
+    return bdb.Database('o13', pd.DataFrame({c: [base[c] + i for i in range(3)] for c in cols}, columns=cols))
+
+
+def _model(database, formulas):
+    import biogeme.biogeme as bio
+    import biogeme.parameters
+
+    return bio.BIOGEME(database, formulas, parameters=biogeme.parameters.Parameters(), generate_html=False,
+                       generate_pickle=False, save_iterations=False, number_of_threads=1)
+
+
+def build_prov(db, t, prov):
+    """The formula object for term t with the past `prov` (see PROV_KINDS); the objects it was part of stay alive."""
+    if prov is None:
+        return build(t)
+    kind, layout, tag = parse_prov(prov)
+    store = db.__dict__.setdefault('_vf_exprs', {})
+    keep = db.__dict__.setdefault('_vf_keep', [])
+    if kind == 'reused':
+        return store[tag]                     # the object of an earlier operation of this history
+    pool = {} if kind == 'variables-shared-with-a-model-on-another-table' else None
+    e = build(t, pool)
+    if kind == 'fresh':
+        pass
+    elif kind == 'evaluated-on-another-table':
+        keep.append(other_db(layout).values_from_database(e))
+    elif kind == 'prepared-on-another-table':
+        o = other_db(layout)
+        e.prepare(o, 1)
+        keep.append(o)
+    elif kind == 'model-on-another-table':
+        keep.append(_model(other_db(layout), e))
+    elif kind == 'simulation-on-another-table':
+        keep.append(_model(other_db(layout), {'u': e}))
+    elif kind == 'part-of-a-model-on-another-table':
+        from biogeme.expressions import Variable
+
+        keep.append(_model(other_db(layout), e + Variable('r')))
+    elif kind == 'variables-shared-with-a-model-on-another-table':
+        other = None
+        for name in COLS:
+            v = build(V(name), pool)
+            other = v if other is None else other + v
+        keep.append(_model(other_db(layout), other))
+    elif kind == 'model-on-this-table':
+        # a formula outside PanelLikelihoodTrajectory is refused as the log likelihood of a model on panel data
+        # (documented refusal): there the formula is one of the quantities to simulate
+        keep.append(_model(db, {'u': e} if db.is_panel() else e))
+    else:
+        raise ValueError(prov)
+    if tag:
+        store[tag] = e
+    return e
+
+
 def apply_real(db, ref_before: RefTable, op):
     """Applies a mutating op to the real object; returns the library's return value."""
     k = op[0]
     if k == 'remove':
-        return db.remove(build(ref_before.cond_term(op[1])))
+        return db.remove(build_prov(db, ref_before.cond_term(op[1]), prov_of(op)))
     if k == 'add':
-        return db.add_column(build(term_of(formula_name(op))), op[1])
+        return db.add_column(build_prov(db, term_of(formula_name(op)), prov_of(op)), op[1])
     if k == 'define':
-        return db.define_variable(op[1], build(term_of(formula_name(op))))
+        return db.define_variable(op[1], build_prov(db, term_of(formula_name(op)), prov_of(op)))
     if k == 'scale':
         return db.scale_column(op[1], op[2])
     if k == 'panel':
@@ -817,10 +936,11 @@ def observers(ref: RefTable, tier, wide=False, dt=False):
     if dt:
         ops.append(['values', 'frac'])
     if wide:
-        ops += [['sizes'], ['values', 'lin'], ['count'], ['extract'], ['split', 2, 'id'], ['sample', 1], ['sample', 2]]
+        ops += [['sizes'], ['values', 'lin'], ['count'], ['extract'], ['rowsplit', 'reduced'], ['split', 2, 'id'],
+                ['sample', 0], ['sample', 1], ['sample', 2]]
         if ref.panel is not None:
-            ops += [['sample_map', 2], ['flat', 'auto'], ['flat', 'given']]
-        ops += [['flat_tool', 'auto'], ['flat_tool', 'given']]
+            ops += [['sample_map', 2], ['flat', 'auto'], ['flat', 'given'], ['flat', 'given_empty']]
+        ops += [['flat_tool', 'auto'], ['flat_tool', 'given'], ['flat_tool', 'given_empty']]
         if ref.has_undefined():
             ops.append(['flat_tool', 'given_undefined_equal'])
         return ops
@@ -829,23 +949,34 @@ def observers(ref: RefTable, tier, wide=False, dt=False):
         ops.append(['values', f])
     ops.append(['count'])
     ops.append(['extract'])
+    ops.append(['rowsplit'])
     ks = [2, 3, 5] if tier == 'quick' else [2, 3, 4, 5]
     for k in ks:
         # on panel data every split is grouped by the panel column; another group column is refused
         for g in ((None, 'id') if ref.panel is not None else (None, 'id', 'c')):
             ops.append(['split', k, g])
-    for size in (None, 1, 2):
+    for size in (None, 0, 1, 2):
         ops.append(['sample', size])
     if ref.panel is not None:
-        for size in (None, 2):
+        for size in (None, 0, 2):
             ops.append(['sample_map', size])
         ops.append(['flat', 'auto'])
         ops.append(['flat', 'given'])
+        ops.append(['flat', 'given_empty'])
     ops.append(['flat_tool', 'auto'])
     ops.append(['flat_tool', 'given'])
+    ops.append(['flat_tool', 'given_empty'])
     if ref.has_undefined():
         ops.append(['flat_tool', 'given_undefined_equal'])
     return ops
+
+
+def container(form, lst):
+    """A list of positions in one of the forms in which a caller may hold it (the argument is declared Iterable[int])."""
+    import numpy as np
+
+    return {'list': list, 'tuple': tuple, 'iterator': iter, 'range': lambda q: range(len(q)),
+            'ndarray': lambda q: np.array(q, dtype=int), 'npint-list': lambda q: [np.int64(v) for v in q]}[form](lst)
 
 
 def distinct_bound(tier):
@@ -1023,8 +1154,14 @@ def run_observer(R: Replayed, op, tier, rec: Rec, ctx, only_answer=None):
         if got != want:
             problems.append(('sizes', f'(observations, sample size, panel) = {got}, the reference implies {want}', None))
     elif k == 'values':
-        t = FORMULAS[op[1]]
-        r, err = guard(lambda: db.values_from_database(build(t)), None)
+        t = term_of(op[1])
+        try:
+            e = build_prov(db, t, prov_of(op))
+        except Exception as ex:  # noqa: BLE001
+            if type(ex).__name__ == 'RuntimeError':
+                rec.retire = True
+            return [('formula-preparation-raised', f'{op}: {type(ex).__name__}: {ex}', None)]
+        r, err = guard(lambda: db.values_from_database(e), None)
         if err:
             problems.append(err)
         else:
@@ -1063,11 +1200,13 @@ def run_observer(R: Replayed, op, tier, rec: Rec, ctx, only_answer=None):
         plan = [('list', lst) for lst in extract_lists(n, tier)]
         # the argument is declared Iterable[int]: other iterable forms of a few position lists
         plan += [('tuple', full), ('range', full), ('iterator', full), ('iterator', [n - 1, 0]), ('tuple', [n - 1, 0])]
+        # ... and the containers / integers of numpy (what an index computation returns)
+        plan += [('ndarray', full), ('ndarray', [n - 1, 0]), ('ndarray', [0]), ('npint-list', [n - 1, 0])]
         for form, lst in plan:
             ans = lst if form == 'list' else [form, lst]
             if only_answer is not None and only_answer != ans:
                 continue
-            arg = {'list': list, 'tuple': tuple, 'iterator': iter, 'range': lambda q: range(len(q))}[form](lst)
+            arg = container(form, lst)
             r, err = guard(lambda: db.extract_rows(arg), None)
             if err:
                 problems.append((err[0] + ('' if form == 'list' else '-' + form + '-argument'), err[1], ans))
@@ -1079,6 +1218,53 @@ def run_observer(R: Replayed, op, tier, rec: Rec, ctx, only_answer=None):
             bad = [('columns', f'extract_rows columns {cols}')] if cols != ref.cols else compare_rows(
                 cols, frame_rows(sub), ref, want, f'extract_rows({form} {lst})')
             problems += [('extract-' + c, d, ans) for c, d in bad]
+    elif k == 'rowsplit' and ref.has_undefined():
+        rec.count('skipped_mdcev_row_split_on_a_table_with_undefined_values')      # as for extract_rows
+    elif k == 'rowsplit':
+        # the second entry point that extracts rows: one Database per designated row (no designation = every row)
+        full = list(range(n))
+        reduced = len(op) > 1 and op[1] == 'reduced'
+        plan = [('none', full)]
+        plan += [('list', lst) for lst in ([[n - 1, 0], [0]] if reduced else extract_lists(n, tier))]
+        plan += [(f, []) for f in ('list', 'tuple', 'range', 'iterator', 'ndarray')]       # no row is designated
+        plan += [('ndarray', [0]), ('ndarray', [n - 1, 0]), ('ndarray', [n - 1])]
+        if not reduced:
+            plan += [('tuple', full), ('range', full), ('iterator', full), ('iterator', [n - 1, 0]), ('tuple', [n - 1, 0]),
+                     ('ndarray', full), ('npint-list', [n - 1, 0])]
+        seen = set()
+        for form, lst in plan:
+            if (form, tuple(lst)) in seen:
+                continue
+            seen.add((form, tuple(lst)))
+            ans = [form, lst]
+            if only_answer is not None and only_answer != ans:
+                continue
+            sfx = '' if (lst and form in ('list', 'none')) else f'-{"" if lst else "empty-"}{form}-argument'
+            if form == 'none':
+                r, err = guard(lambda: db.mdcev_row_split(), None)
+            else:
+                arg = container(form, lst)
+                r, err = guard(lambda: db.mdcev_row_split(arg), None)
+            if err:
+                problems.append((err[0] + sfx, err[1], ans))
+                continue
+            try:
+                parts = [([str(c) for c in d.data.columns], frame_rows(d.data)) for d in r[0]]
+            except Exception as e:  # noqa: BLE001
+                problems.append(('rowsplit-result' + sfx, f'mdcev_row_split({form} {lst}) returned {r[0]!r}: {type(e).__name__}: {e}', ans))
+                continue
+            case(ans, parts, ('rowsplit', form, len(lst)), nontrivial=False)
+            want = [ref.rows[p][0] for p in lst]
+            if len(parts) != len(want):
+                problems.append(('rowsplit-count' + sfx, f'mdcev_row_split({form} {lst}) returned {len(parts)} one-row tables '
+                                 f'for {len(want)} designated rows', ans))
+                continue
+            for (cols, rows), rid in zip(parts, want):
+                bad = [('columns', f'mdcev_row_split columns {cols}')] if cols != ref.cols else compare_rows(
+                    cols, rows, ref, [rid], f'mdcev_row_split({form} {lst})')
+                if bad:
+                    problems += [('rowsplit-' + c + sfx, d, ans) for c, d in bad[:1]]
+                    break
     elif k == 'split':
         kk, g = op[1], op[2]
         group_col = ref.panel if ref.panel is not None else g
@@ -1174,7 +1360,7 @@ def run_observer(R: Replayed, op, tier, rec: Rec, ctx, only_answer=None):
             problems = problems[:6]
     elif k == 'flat':
         ident = truly_identical(ref)
-        arg = None if op[1] == 'auto' else list(ident)
+        arg = {'auto': None, 'given': list(ident), 'given_empty': []}[op[1]]      # [] = every column varies
         r, err = guard(lambda: db.generate_flat_panel_dataframe(identical_columns=arg), None)
         if err:
             problems.append(err)
@@ -1186,7 +1372,7 @@ def run_observer(R: Replayed, op, tier, rec: Rec, ctx, only_answer=None):
         # the function behind generate_flat_panel_dataframe, called directly on the table (panel or not)
         from biogeme.tools.database import flatten_database
 
-        arg = {'auto': None, 'given': truly_identical(ref, 'id'),
+        arg = {'auto': None, 'given': truly_identical(ref, 'id'), 'given_empty': [],
                'given_undefined_equal': truly_identical(ref, 'id', undefined_equal=True)}[op[1]]
         r, err = guard(lambda: flatten_database(db.data, 'id', identical_columns=None if arg is None else list(arg)), None)
         if err:
@@ -1263,6 +1449,8 @@ def shrink_history(root, history, op, observer, answer, clause, rec):
 def operand_class(root, snap_, op):
     """Column-type search and sweep: the finding key names the type of the column operated on and the kind of operand
     (the class of input a type-dependent defect is tied to).  Empty for the other searches (their keys stay as they were)."""
+    if prov_of(op) is not None:
+        return prov_class(op)
     if not root.get('dt') or snap_ is None:
         return ''
     types = dict(zip(snap_['cols'], snap_['dtypes']))
@@ -1291,7 +1479,9 @@ def report(rec, problems, op, root, history, flags, observer, shrink=False, extr
         else:
             history_, flags_ = history, flags
         # failures tied to the form of an argument do not depend on the state: one key
+        # ... nor do failures tied to the past of the formula object (the key names that past instead)
         key = (f'C13|{clause}|op={op_label(op)}' if clause.endswith('-argument')
+               else f'C13|{clause}|op={op_label(op)}{extra}' if prov_of(op) is not None
                else f'C13|{clause}|op={op_label(op)};state={flags_}{extra}')
         case = dict(root=root, history=history_, op=op, observer=observer, answer=answer)
         rec.violation(key, f'{clause}: after history {history_} on table {root["table"]}, {op}'
@@ -1497,6 +1687,10 @@ def tasks(tier, seed):
     for li in range(2 if tier == 'quick' else len(tool_layouts())):
         for lead in range(3):
             t.append(dict(part='tool', layout=li, lead=lead, tier=tier))
+    for table in ['A', 'B', 'C'] + (dt_tables('quick') if tier == 'thorough' else []):
+        for pi in range(len(PRE)):
+            for kinds in (PROV_KINDS[:4], PROV_KINDS[4:]):
+                t.append(dict(part='prov', root=dict(table=table, tier=tier, prov=True, relative=True), pre=pi, kinds=kinds))
     return t
 
 
@@ -1505,7 +1699,7 @@ def run_task(task):
     install_seams()
     try:
         {'chain': _run_chain, 'mag': _run_mag, 'nanpat': _run_nanpat, 'tool': _run_tool,
-         'dtsweep': _run_dtsweep}[task['part']](task, rec)
+         'dtsweep': _run_dtsweep, 'prov': _run_prov}[task['part']](task, rec)
     finally:
         remove_seams()
     return rec.result()
@@ -1587,6 +1781,54 @@ def _run_dtsweep(task, rec):
                     _run_steps(root, pre + form, rec, 'dt', observe_last=thorough, start=len(pre) + 1)
 
 
+def _observe_one(root, history, op, rec, tag):
+    """One observing operation in the state reached by `history`; the state must not change."""
+    table = root['table']
+    try:
+        R = replay_history(table, history)
+    except RuntimeError:
+        return
+    if len(R.ref.rows) == 0:
+        return
+    flags, canon0 = flags_of(R.snap), canon_of(R.snap)
+    ctx = dict(root=table + '/' + tag, hist=json.dumps(history), depth=len(history))
+    problems = run_observer(R, op, root['tier'], rec, ctx)
+    report(rec, problems, op, root, history, flags, True, extra=operand_class(root, R.snap, op))
+    try:
+        c1 = canon_of(snap(R.db))
+    except Exception as e:  # noqa: BLE001
+        c1 = f'snapshot failed: {type(e).__name__}: {e}'
+    if c1 != canon0:
+        report(rec, [('observer-changed-the-table', f'state before {canon0} / after {c1}')], op, root, history, flags, True,
+               extra=operand_class(root, R.snap, op))
+
+
+def _run_prov(task, rec):
+    """past of the formula object x layout of the other table x formula x operation, after each of the earlier histories;
+    then a second use of the same object after the table has changed."""
+    root, pre = task['root'], PRE[task['pre']]
+    thorough = root['tier'] == 'thorough'
+    rec.sample(dict(part='prov', root=root, pre=pre, kinds=task['kinds'], layouts=[LAYOUTS[i] for i in prov_layouts(root['tier'])]))
+    for kind in task['kinds']:
+        for layout in ([0] if kind in PROV_LOCAL else prov_layouts(root['tier'])):
+            p = f'{kind}@{layout}#g'
+            again = 'reused@0#g'
+            for f in (PROV_FORMULAS_T if thorough else PROV_FORMULAS_Q):
+                ok = _run_steps(root, pre + [['add', 'u1', f, p]], rec, 'prov', observe_last=False, start=len(pre))
+                _run_steps(root, pre + [['define', 'u1', f, p]], rec, 'prov', observe_last=False, start=len(pre))
+                _observe_one(root, pre, ['values', f, p], rec, 'prov')
+                if ok:
+                    # the same object once more, after a change of units and with a further column in the table
+                    h = pre + [['add', 'u1', f, p], ['scale', 'x', 0.5]]
+                    _run_steps(root, h + [['define', 'u2', f, again]], rec, 'prov', observe_last=False, start=len(h))
+                    _observe_one(root, h, ['values', f, again], rec, 'prov')
+            for c in (PROV_CONDS_T if thorough else PROV_CONDS_Q):
+                ok = _run_steps(root, pre + [['remove', c, p]], rec, 'prov', observe_last=False, start=len(pre))
+                if ok and (thorough or c == 'x_gt'):
+                    h = pre + [['remove', c, p], ['scale', 'x', -4.0]]
+                    _run_steps(root, h + [['remove', c, again]], rec, 'prov', observe_last=thorough, start=len(h))
+
+
 def _run_nanpat(task, rec):
     root, base = task['root'], task['base']
     rec.sample(dict(part='nanpat', root=root, histories=nan_histories(task['masks'][0], base, root['tier'])))
@@ -1614,7 +1856,7 @@ class _Frame:
 
 
 def tool_variants(ref):
-    v = ['auto', 'given']
+    v = ['auto', 'given', 'given_empty']
     if truly_identical(ref, 'id', undefined_equal=True) != truly_identical(ref, 'id'):
         v.append('given_undefined_equal')
     return v
